@@ -1,6 +1,6 @@
 /-
 C19, part 11 (round 7c): `get_action` of PeriodicAgent / ProbabilisticAgent and the construction of the probability vector
-(`ProbabilisticAgent.probabilities`), TRANSLATED statement by statement from the sources (Gen/AgentsCtl.lean, second half,
+(`ProbabilisticAgent.probabilities`), TRANSLATED statement by statement from the sources (Gen/AgentsGet.lean,
 regenerated on every run by harness/extract/agents_ctl.py), compute what the hand-written model computes — for EVERY
 table / state / draw.
 
@@ -14,11 +14,14 @@ INSERTION-order vector (`C19_values_vector_is_insertion`), and that differs from
 are not written in ascending order and whose weights are not symmetric under the permutation
 (`C19_insertion_vector_counter_model`: `{1: 1, 0: 3}`).
 -/
-import PrimaiteModel.Gen.AgentsCtl
+import PrimaiteModel.Gen.AgentsGet
 import PrimaiteModel.Model.Agents
 set_option linter.unusedSimpArgs false
 namespace Primaite.Agents
-open Primaite.Gen.AgentsCtl
+open Primaite.Gen.AgentsGet
+
+/-- every part of Gen/AgentsGet.lean is a translation (no placeholder) -/
+theorem C19_gen_get_translated : Gen.AgentsGet.untranslated = [] := by decide
 
 /-- an append loop is a `mapM` -/
 theorem forAppend_eq {α β} (f : α → Option β) : ∀ (xs : List α) (out : List β),
